@@ -457,12 +457,53 @@ pub fn history(bytes: &[u8]) -> (Vec<Snippet>, Vec<&'static str>) {
                 for _ in 0..yields {
                     v.push(Snippet::Code(vec![Stmt::print(Expr::invoke(Expr::var(&wk), "call", vec![]))], "code"));
                 }
+                // sometimes the fiber that dies is called by another global fiber, from inside a try
+                // block: that outer fiber is waiting for the result when the run ends, and nothing of
+                // its activation (the rest of the try block, its handler, what follows) may run later
+                let outer = if g.rd.chance(1, 2) { Some(g.fresh_pub("gwo")) } else { None };
+                if let Some(wo) = &outer {
+                    let inner_call = Stmt::print(Expr::invoke(Expr::var(&wk), "call", vec![]));
+                    let mut ob: Vec<Stmt> = vec![Stmt::print(Expr::str("outer starts"))];
+                    let after = Stmt::print(Expr::str("ran on behind the failed call"));
+                    match g.rd.below(3) {
+                        0 => ob.extend(vec![inner_call, after]),
+                        1 => ob.push(Stmt::new(StmtKind::Try(
+                            vec![inner_call, after],
+                            Some(("eo".into(), vec![Stmt::print(Expr::str("outer handler ran"))])),
+                            None,
+                        ))),
+                        _ => ob.push(Stmt::new(StmtKind::Try(vec![inner_call, after], None, Some(vec![Stmt::print(Expr::str("outer finally ran"))])))),
+                    }
+                    ob.push(Stmt::print(Expr::str("outer committed")));
+                    v.push(Snippet::Code(
+                        vec![Stmt::var(wo, Some(Expr::invoke(Expr::var("Fiber"), "new", vec![Expr::Lambda(Rc::new(FnDef {
+                            name: std::cell::RefCell::new("lambda-0".into()),
+                            params: vec![],
+                            body: Body::Block(ob),
+                            kind: FnKind::Lambda,
+                        }))])))],
+                        "code",
+                    ));
+                }
+                let dying_call = outer.clone().unwrap_or_else(|| wk.clone());
                 v.push(Snippet::Code(
-                    vec![Stmt::print(Expr::invoke(Expr::var(&wk), "call", vec![])), Stmt::var("never_defined", Some(Expr::Num(1.0)))],
+                    vec![Stmt::print(Expr::invoke(Expr::var(&dying_call), "call", vec![])), Stmt::var("never_defined", Some(Expr::Num(1.0)))],
                     "global_fiber_dies",
                 ));
                 labels.push("global_fiber_dies");
                 failed_before = true;
+                if let Some(wo) = &outer {
+                    // between the failure and the probe of the fiber that died, other snippets may run
+                    v.push(Snippet::Code(
+                        vec![Stmt::new(StmtKind::Try(
+                            vec![Stmt::print(Expr::invoke(Expr::var(wo), "call", vec![]))],
+                            Some(("ew".into(), vec![Stmt::print(Expr::callv("type", vec![Expr::var("ew")]))])),
+                            None,
+                        ))],
+                        "probe_waiting_fiber",
+                    ));
+                    labels.push("probe_waiting_fiber");
+                }
                 let probe = vec![
                     Stmt::print(Expr::invoke(Expr::var(&wk), "has_finished", vec![])),
                     Stmt::new(StmtKind::Try(
@@ -597,7 +638,7 @@ impl Property for C15 {
 
     fn assumptions(&self) -> Vec<String> {
         vec![
-            "fibers are kept local to a snippet (the state of a fiber after the run in which it died is not defined)".into(),
+            "a fiber that was waiting for another fiber's result when its run ended in an uncaught error must refuse later calls with a RuntimeError (its activation belongs to the failed run); whether it counts as finished is not compared".into(),
             "the importable modules ma and mb do not throw; mfail always does, and a second import of it is compared with the reference model (the module stays registered as 'being loaded', so the import is refused and its top-level code never runs again)".into(),
         ]
     }
@@ -759,7 +800,7 @@ impl Property for C15 {
             ("snippets", 30_000),
             ("gen:compile_error", 2_000),
             ("gen:reset", 1_000),
-            ("gen:throw_in_fiber", 300),
+            ("gen:throw_in_fiber", 300), ("gen:probe_waiting_fiber", 500),
             ("gen:throw_in_try_finally", 300),
             ("gen:probe_after_failure", 1_000),
             ("gen:import", 2_000), ("gen:import_late", 2_000), ("gen:import_failing_module", 1_500), ("gen:provide_module", 1_000),
